@@ -479,6 +479,22 @@ func (u *User) fire(ev *UserEvent) {
 		}
 		u.Disturbed = true
 		_ = u.h.Delete(u.ctx, br)
+	case "hostile-script", "restore-script":
+		// C16 in the loop: the operator replaces the configured provider script by a broken one (only scripts that end by
+		// themselves: a spinning VM cannot run under the simulated clock, see lua16), and puts the good one back later
+		cm := &corev1.ConfigMap{}
+		if err := u.h.Get(u.ctx, types.NamespacedName{Namespace: "kruise-rollout", Name: "kruise-rollout-configuration"}, cm); err != nil {
+			return
+		}
+		script := customTagScript
+		if ev.Kind == "hostile-script" {
+			script = hostileScripts[ev.Arg%len(hostileScripts)]
+		}
+		if cm.Data == nil {
+			cm.Data = map[string]string{}
+		}
+		cm.Data["lua.traffic.routing.TrafficTag.example.io"] = script
+		_ = u.h.Update(u.ctx, cm)
 	case "touch-annotation":
 		o := u.getWorkload()
 		if o == nil {
@@ -522,4 +538,23 @@ func (u *User) fire(ev *UserEvent) {
 			}
 		}
 	}
+}
+
+// hostileScripts: broken provider scripts that terminate on their own
+var hostileScripts = []string{
+	"error('boom')",
+	"return 42",
+	"return nil",
+	"local x = nil return x.y.z",
+	"local function f(n) return 1 + f(n + 1) end return f(1)",
+	"local t = {} t.t = t return t",
+	"local t = {} t[1] = t return t",
+	"return {1, 2, x = 3}",
+	"return {a = 0/0}",
+	"return {spec = 1, labels = 'x', annotations = {1, 2}}",
+	"return {f = print}",
+	"return {a = }",
+	"local t = setmetatable({}, {__index = function(t, k) return t[k .. 'x'] end}) return t.a",
+	"return {r = dofile('/etc/hostname'), s = loadfile and 1}",
+	"return obj.data.spec.no.such.field",
 }
